@@ -123,7 +123,7 @@ mutant("c02-reduce-observation-guard-removed", "C02", OPT, "            if _valu
 mutant("c02-add-forest-guard-removed", "C02", OPT, "            if _any_node_output_observed(graph, nodes, add_nodes):\n", "            if False:\n", expect="remeant::add_nodes")
 mutant("c02-add-chain-guard-removed", "C02", OPT, "            if _any_node_output_observed(graph, nodes, add_chain):\n                continue\n", "", expect="add_chain")
 mutant("c02-forest-guard-removed", "C02", OPT, "            if _any_node_output_observed(graph, nodes, elem_nodes):\n                continue\n", "", expect="remeant::elem_nodes")
-mutant("c02-forest-input-transpose-graph-output", "C02", OPT, "                if _value_is_observed(graph, live_nodes, t_out):\n                    continue\n", "", expect="removed::t_node")
+mutant("c02-forest-input-transpose-graph-output", "C02", OPT, "                if _value_is_observed(graph, live_nodes, t_out):\n                    continue\n", "", expect="removed::")
 mutant("c02-chain-t1-output-guard-removed", "C02", OPT, "            if _value_is_observed(graph, nodes, t1_out) or _any_node_output_observed(\n                graph, nodes, elem_nodes\n            ):",
        "            if _any_node_output_observed(\n                graph, nodes, elem_nodes\n            ):", expect="removed::T1")
 mutant("c02-chain-elem-guard-removed", "C02", OPT, "            if _value_is_observed(graph, nodes, t1_out) or _any_node_output_observed(\n                graph, nodes, elem_nodes\n            ):",
@@ -148,7 +148,11 @@ mutant("c02-reduce-keepdims-check-dropped", "C02", OPT, "            if keepdims
 mutant("c02-reshape-shape-check-dropped", "C02", OPT, "            if not _shapes_compatible(src, dst):\n                i += 1\n                continue\n", "", expect="_shapes_compatible")
 mutant("c02-identity-reshape-check-dropped", "C02", OPT, "            if not _shapes_match_exact(src_dims, target_dims):\n                continue\n            dst_val = outs[0]", "            dst_val = outs[0]", expect="_shapes_match_exact")
 mutant("c02-cast-observed-intermediate-removed", "C02", OPT, "                                if intermediate_is_observed:\n                                    graph.remove(next_node)\n                                else:\n                                    graph.remove([n, next_node])", "                                graph.remove([n, next_node])", expect="removed::n")
-mutant("c02-swish-sigmoid-output-guard-removed", "C02", OPT, "            if not _value_is_graph_output(graph, sigmoid_out) and not _consumer_nodes(\n                remaining_nodes, sigmoid_out\n            ):", "            if not _consumer_nodes(\n                remaining_nodes, sigmoid_out\n            ):", expect="removed::sigmoid_node")
+mutant("c02-swish-sigmoid-output-guard-removed", "C02", OPT, "            if not _value_is_observed(\n                graph, remaining_nodes, sigmoid_out\n            ) and not _consumer_nodes(remaining_nodes, sigmoid_out):", "            if not _consumer_nodes(remaining_nodes, sigmoid_out):", expect="removed::sigmoid_node")
+mutant("c02-swish-nested-capture-ignored", "C02", OPT, "            if not _value_is_observed(\n                graph, remaining_nodes, sigmoid_out\n            ) and not _consumer_nodes(remaining_nodes, sigmoid_out):", "            if not _value_is_graph_output(graph, sigmoid_out) and not _consumer_nodes(remaining_nodes, sigmoid_out):", expect="nested")
+mutant("c02-orphan-transpose-nested-capture-ignored", "C02", OPT, "                if _nested_graph_references_value(nodes, out):\n                    # Only read from inside a Loop/If body: still live.\n                    is_live = True\n                    break\n", "", expect="remove_orphan_transposes_ir")
+mutant("c02-nested-predicate-not-recursive", "C02", OPT, "            if _node_attributes_reference(child_node):\n                return True\n        return False", "        return False", expect="R-C02g")
+mutant("c02-nested-predicate-ignores-subgraph-outputs", "C02", OPT, "        if any(_matches(output) for output in graph.outputs):\n            return True\n        for child_node in graph:", "        for child_node in graph:", expect="R-C02g")
 mutant("c02-orphan-transpose-graph-output-check-removed", "C02", OPT, "                if out_name in graph_output_names:\n                    is_live = True\n                    break\n", "", expect="remove_orphan_transposes_ir")
 mutant("c02-prune-inputs-in-function-bodies", "C02", OPT, '        prune_unused_graph_inputs_ir,\n        function_bodies=False,\n', "        prune_unused_graph_inputs_ir,\n", expect="R-C02e")
 benign("c02-benign-guard-as-flag-loop", "C02", OPT, "            if _any_node_output_observed(graph, nodes, add_chain):\n                continue\n",
@@ -302,3 +306,6 @@ mutant("c17-range-last-off-by-one", "C17", OPT, "        last = start + ((limit 
 mutant("c17-range-negative-delta-sign", "C17", OPT, "    last = start + ((start - limit - 1) // (-delta)) * delta\n    return last, start", "    last = start + ((start - limit - 1) // (-delta)) * delta\n    return start, last", expect="range-closed-form")
 mutant("c17-cast-added-to-value-preserving-ops", "C17", OPT, '        "Expand",\n        "Flatten",', '        "Cast",\n        "Expand",\n        "Flatten",', expect="_INTEGER_VALUE_PRESERVING_OPS::Cast")
 benign("c17-benign-range-conservative", "C17", OPT, "        return start, last", "        return start, max(last, start)")
+mutant("c05-collision-universe-interface-only", "C05", UIF, "    return ir.convenience.create_value_mapping(graph, include_subgraphs=False)", "    return {v.name: v for v in (*graph.inputs, *graph.outputs) if getattr(v, 'name', None)}", expect="collision-universe")
+mutant("c19-manual-positional-guard-off-by-one", "C19", "jax2onnx/plugins/jax/numpy/concatenate.py", "        if len(args) > 2:\n            dtype = args[2]", "        if len(args) > 3:\n            dtype = args[2]", expect="R-C19d")
+mutant("c11-version-gated-dtype-partial", "C11", "jax2onnx/plugins/jax/numpy/arange.py", "            if result_dtype not in _OPSET27_NATIVE_RANGE_DTYPES\n            or use_native_range_dtype", "            if result_dtype != np.dtype(jnp.bfloat16)\n            or use_native_range_dtype", expect="R-C11d")
